@@ -151,7 +151,7 @@ func c17Cut(f namedFile, ref *fullRef, n int) string {
 func init() {
 	fw.Register(&fw.Check{
 		ID: "C17", Level: "fault_enumeration", Shards: shards16,
-		Rule: "corpus of valid still files (lossy 1/2/4/8 partitions, lossless per transform class, lossy+alpha raw/VP8L x filters, extended with metadata before/after, unknown chunks, odd payloads, testdata) x EVERY proper prefix length 0..len-1; Decode = error or identical picture; DecodeConfig/GetFeatures = error or identical values; non-trivial = a (file, cut) pair with cut > 0",
+		Rule:   "corpus of valid still files (lossy 1/2/4/8 partitions, lossless per transform class, lossy+alpha raw/VP8L x filters, extended with metadata before/after, unknown chunks, odd payloads, testdata) x EVERY proper prefix length 0..len-1; Decode = error or identical picture; DecodeConfig/GetFeatures = error or identical values; non-trivial = a (file, cut) pair with cut > 0",
 		Assume: []string{"worker count pinned to 1, pools never reuse", "corpus files are produced by this package's encoder and by the harness's RIFF writer"},
 		Run: func(e *fw.Env, r *fw.Result) {
 			pin()
